@@ -1,6 +1,6 @@
 //! C14 — variable-length messages decode what is present; short payloads are rejected.
 
-use crate::adapter::{Config, STD};
+use crate::adapter::{configs, Config, STD};
 use crate::engine::{Ctx, Input, Rec, Verdict};
 use crate::gen::payload::{payload_inputs, LenMode};
 use crate::props::payload::check_input;
@@ -52,7 +52,9 @@ pub fn run(ctx: &mut Ctx) {
                     if ctx.sub_failed("every-byte-length") {
                         return;
                     }
-                    ctx.sweep_case("every-byte-length", &STD, &Input::Payload { bytes: b.clone() }, check);
+                    for cfg in configs() {
+                        ctx.sweep_case("every-byte-length", cfg, &Input::Payload { bytes: b.clone() }, check);
+                    }
                 }
             }
         }
@@ -73,7 +75,10 @@ pub fn run(ctx: &mut Ctx) {
                     if ctx.sub_failed("every-char-length-and-fill") {
                         return;
                     }
-                    ctx.sweep_case("every-char-length-and-fill", &STD, &Input::SentPayload { chars, fill, cuts: vec![] }, check);
+                    let input = Input::SentPayload { chars, fill, cuts: vec![] };
+                    for cfg in configs() {
+                        ctx.sweep_case("every-char-length-and-fill", cfg, &input, check);
+                    }
                 }
             }
         }
